@@ -12,7 +12,7 @@ CONSTANT Windows,                \* set of <<first year, last year>>
 VARIABLE x
 n == x.n
 QuickWindows    == { <<0, 0>>, <<2007, 2010>>, <<9999, 10000>>, <<-262143, -262143>>, <<262142, 262142>>, <<-100, -99>> }
-ThoroughWindows == { <<-101, 101>>, <<1900, 2100>>, <<9998, 10001>>, <<-10001, -9998>>, <<-262143, -262140>>, <<262139, 262142>> }
+ThoroughWindows == { <<-30, 30>>, <<1960, 2080>>, <<9998, 10001>>, <<-10001, -9998>>, <<-262143, -262140>>, <<262139, 262142>> }
 \* item lists of the format strings used in the invariants, tokenised once
 DayFmts == {"%F", "%Y-%m-%d", "%v", "%e-%b-%Y", "%h", "%b", "%e", "%_d", "%D", "%m/%d/%y", "%x", "%a, %A", "%B", "%A", "%a", "%Y", "%C", "%y", "%g", "%-Y",
             "%q", "%m", "%d", "%j", "%U", "%W", "%G", "%V", "%u", "%w",
